@@ -171,10 +171,551 @@ def o_c15_ptry(params, cases, outs):
 
 
 # ------------------------------------------------------------------------------------------------
+# text helpers shared by the oracles (an independent reading of the accepted syntax)
+# ------------------------------------------------------------------------------------------------
+import re
+
+_U64RE = re.compile(rb"\+?[0-9]+\Z")
+
+
+def py_u64(b):
+    """u64::from_str: optional '+', at least one ASCII digit, value <= u64::MAX"""
+    if isinstance(b, str):
+        b = b.encode("latin-1")
+    if not _U64RE.match(b):
+        return None
+    v = int(b.lstrip(b"+"))
+    return v if v <= U64 else None
+
+
+NUM_POOL = ["0", "1", "2", "7", "10", "18446744073709551615", "18446744073709551616", "18446744073709551614",
+            "+5", "007", "+0", "-1", "", " 3", "3 ", "1e3", "0x10", "99999999999999999999999", "+", "++1", "５"]
+
+
+def rand_num_text(rng, valid_bias=0.8):
+    if rng.random() < valid_bias:
+        r = rng.random()
+        if r < 0.5:
+            return str(rng.randint(0, 50))
+        if r < 0.7:
+            return str(rng.choice([0, 1, U64, U64 - 1, 2 ** 63, 2 ** 32]))
+        if r < 0.85:
+            return rng.choice(["+", "0", "00"]) + str(rng.randint(0, 50))
+        return str(rng.randint(0, U64))
+    return rng.choice(NUM_POOL)
+
+
+# ------------------------------------------------------------------------------------------------
+# C14
+# ------------------------------------------------------------------------------------------------
+
+def gen_C14(rng, tier):
+    n = 1500 if tier == "quick" else 30000
+    groups = []
+    for _ in range(n):
+        k = rng.random()
+        if k < 0.45:
+            name = rng.choice(["seq0", "a", "", "chr 1", "x\ty"])
+            size, start, end = rand_num_text(rng, 0.9), rand_num_text(rng, 0.9), rand_num_text(rng, 0.9)
+            if rng.random() < 0.5:
+                # related numbers: around start <= end <= size
+                a = rng.choice([0, 1, 5, U64 - 2, rng.randint(0, 100)])
+                b = a + rng.choice([0, 1, 3])
+                c = b + rng.choice([-1, 0, 0, 1, 2]) if rng.random() < 0.8 else rng.choice([0, U64])
+                start, end, size = str(a), str(min(b, U64)), str(max(0, min(c, U64)))
+                if rng.random() < 0.15:
+                    start, end = end, start
+            strand = rng.choice(["+", "-", "+", "-", "?", "", "+-"])
+            case = "seq %s %s %s %s %s" % tuple(xtok(x.encode("utf-8")) for x in (name, size, strand, start, end))
+            groups.append(group("seq", "c14_seq", [case]))
+        elif k < 0.6:
+            size = rng.choice([0, 1, U64, rng.randint(0, 99)])
+            dt = rng.choice(["-", "0", "5", str(U64)])
+            dq = rng.choice(["-", "0", "7", str(U64)])
+            kind = rng.choice("TN")
+            groups.append(group("drec", "c14_drec", ["drec %d %s %s %s" % (size, dt, dq, kind)]))
+        else:
+            line = gen_line_text(rng)
+            groups.append(group("line", "c14_line", ["pline " + xtok(line)]))
+    return groups
+
+
+def gen_header_text(rng, corrupt=0.3):
+    c = dict(score=rng.randint(0, 10 ** 6), tname=rng.choice(gen.NAMES), tsize=rng.randint(0, 200), tstrand=rng.choice("+-"),
+             qname=rng.choice(gen.NAMES), qsize=rng.randint(0, 200), qstrand=rng.choice("+-"), id=rng.randint(0, 999))
+    c["tend"] = rng.randint(0, c["tsize"]); c["tstart"] = rng.randint(0, c["tend"])
+    c["qend"] = rng.randint(0, c["qsize"]); c["qstart"] = rng.randint(0, c["qend"])
+    if rng.random() < 0.2:
+        c["tsize"] = c["tend"] = U64
+    fields = gen.header_line(c).split(" ")
+    if rng.random() < corrupt:
+        m = rng.random()
+        i = rng.randrange(len(fields))
+        if m < 0.35:
+            fields[i] = rng.choice(NUM_POOL + ["+", "-", "chain", "Chain"])
+        elif m < 0.5:
+            del fields[i]
+        elif m < 0.6:
+            fields.insert(i, rng.choice(["", "0", "x"]))
+        elif m < 0.75:
+            j = rng.choice([3, 5, 6, 8, 10, 11])
+            fields[j] = str(max(0, int(fields[j]) + rng.choice([-2, -1, 1, 2, 1000]))) if fields[j].isdigit() else fields[j]
+        elif m < 0.85:
+            fields[rng.choice([1, 3, 5, 6, 8, 10, 11, 12])] = rand_num_text(rng, 0.5)
+        else:
+            return " ".join(fields).replace(" ", rng.choice(["\t", "  ", " "]), 1).encode("utf-8")
+    return " ".join(fields).encode("utf-8")
+
+
+def gen_data_text(rng, corrupt=0.3):
+    if rng.random() < 0.5:
+        fields = [rand_num_text(rng, 1 - corrupt)]
+    else:
+        fields = [rand_num_text(rng, 1 - corrupt / 2) for _ in range(3)]
+    if rng.random() < corrupt / 2:
+        fields = fields + [rand_num_text(rng)] if rng.random() < 0.5 else fields[:2]
+    sep = "\t" if rng.random() > corrupt / 3 else rng.choice([" ", "\t\t", ","])
+    return sep.join(fields).encode("utf-8")
+
+
+def gen_line_text(rng):
+    r = rng.random()
+    if r < 0.5:
+        return gen_header_text(rng)
+    if r < 0.95:
+        return gen_data_text(rng)
+    return rng.choice([b"", b"chain", b"chainsaw 1 2", b"\t", b" ", b"chain 1"])
+
+
+def parse_seq_out(tok):
+    c, size, strand, start, end = tok.split(":")
+    return dict(name=bytes.fromhex(c[1:]), size=int(size), strand=strand, start=int(start), end=int(end))
+
+
+@oracle("c14_seq")
+def o_c14_seq(params, cases, outs):
+    t = cases[0].split(" ")
+    name, size, strand, start, end = [bytes.fromhex(x[1:]) for x in t[1:6]]
+    o = outs[0]
+    vs, va, vb = py_u64(size), py_u64(start), py_u64(end)
+    ok = vs is not None and strand in (b"+", b"-") and va is not None and vb is not None and va <= vb
+    if not ok:
+        return None if o.startswith("err ") else "constructor accepted an invalid sequence: %s" % o
+    if not o.startswith("ok "):
+        return "constructor refused a valid sequence (start<=end): %s" % o
+    parts = o.split(" ")
+    got = parse_seq_out(parts[1])
+    if (got["name"], got["size"], got["strand"], got["start"], got["end"]) != (name, vs, strand.decode(), va, vb):
+        return "accessors disagree with the arguments: %s" % o
+    iv = " ".join(parts[2:])
+    st = strand.decode()
+    if vb <= vs:
+        exp = "ok %s:%s:%d:%d" % (xtok(name), st, va if st == "+" else vs - va, vb if st == "+" else vs - vb)
+        return None if iv == exp else "interval() gave %s, expected %s" % (iv, exp)
+    if st == "-":
+        return None if iv.startswith("err ") else "end>size on '-' must be an error, got %s" % iv
+    exp = "ok %s:+:%d:%d" % (xtok(name), va, vb)
+    return None if (iv == exp or iv.startswith("err ")) else "end>size on '+' must be an error or the literal interval, got %s" % iv
+
+
+@oracle("c14_drec")
+def o_c14_drec(params, cases, outs):
+    _, size, dt, dq, kind = cases[0].split(" ")
+    o = outs[0]
+    good = (dt == "-" and dq == "-") if kind == "T" else (dt != "-" and dq != "-")
+    if not good:
+        return None if o.startswith("err ") else "record constructor accepted gaps inconsistent with the kind: %s" % o
+    exp = "ok %s/%s/%s/%s" % (size, dt, dq, kind)
+    if not o.startswith(exp + " "):
+        return "record constructor gave %s, expected %s" % (o, exp)
+    txt = size if kind == "T" else "%s\t%s\t%s" % (size, dt, dq)
+    return None if o == exp + " " + xtok(txt.encode()) else "record prints as %s" % o
+
+
+@oracle("c14_line")
+def o_c14_line(params, cases, outs):
+    line = bytes.fromhex(cases[0].split(" ")[1][1:])
+    o = outs[0]
+    if o == "panic":
+        return "parsing a line panicked"
+    if o.startswith("hdr:"):
+        parts = o.split(":")
+        # hdr:score/ref/qry/id with ref = x..:size:strand:start:end
+        body = o[4:o.rindex(":")]
+        score, r, q, hid = body.split("/")
+        for side in (r, q):
+            sq = parse_seq_out(side)
+            if sq["strand"] not in "+-" or not (0 <= sq["start"] <= sq["end"] <= sq["size"] <= U64):
+                return "accepted header violates 0<=start<=end<=size: %s" % o
+        if not line.startswith(b"chain ") or len(line.split(b" ")) != 13:
+            return "accepted a header line that is not 13 space-separated fields after 'chain': %r" % line
+    elif o.startswith("dat:"):
+        body = o[4:o.rindex(":")]
+        size, dt, dq, kind = body.split("/")
+        nf = len(line.split(b"\t"))
+        if kind == "T" and not (dt == "-" and dq == "-" and nf == 1):
+            return "terminating record with gaps or field count != 1: %s" % o
+        if kind == "N" and not (dt != "-" and dq != "-" and nf == 3):
+            return "non-terminating record without gaps or field count != 3: %s" % o
+    return None
+
+
+# ------------------------------------------------------------------------------------------------
+# C04 (and the step-through half of C07)
+# ------------------------------------------------------------------------------------------------
+
+def rec_tok(b):
+    return "%d/%d/%d/N" % b if len(b) == 3 else "%d/-/-/T" % b[0]
+
+
+def gen_step_case(rng):
+    """a header and a record list: mostly adding up, sometimes short/long by k on either side, with zeros,
+    values that overflow on '+' and run below 0 on '-'"""
+    big = rng.random() < 0.25
+    shape = rng.choice(["one", "few", "few", "many"])
+    blocks = gen.gen_blocks(rng, shape)
+    if rng.random() < 0.3:
+        blocks = [((0,) + b[1:]) if rng.random() < 0.3 else b for b in blocks]
+    c = gen.mk_chain(rng, "r", rng.randint(1, 300), "q", rng.randint(1, 300), rng.choice("+-"), rng.choice("+-"), blocks, 1,
+                     big=rng.choice([U64, 2 ** 63, U64 - 1]) if big else None)
+    mode = rng.random()
+    fam = "adds-up"
+    if mode < 0.45:
+        pass
+    elif mode < 0.75:
+        fam = "off-by-k"
+        k = rng.choice([1, 1, 2, 5, 1000])
+        side = rng.choice(["tstart", "tend", "qstart", "qend", "block"])
+        if side == "block":
+            i = rng.randrange(len(blocks))
+            b = list(blocks[i])
+            j = rng.randrange(len(b))
+            b[j] = max(0, b[j] + rng.choice([-k, k]))
+            blocks = blocks[:i] + [tuple(b)] + blocks[i + 1:]
+            c["blocks"] = blocks
+        else:
+            v = c[side] + rng.choice([-k, k])
+            lo = 0
+            hi = c["tsize" if side[0] == "t" else "qsize"]
+            c[side] = min(max(v, lo), hi)
+            if c["tstart"] > c["tend"]:
+                c["tstart"] = c["tend"]
+            if c["qstart"] > c["qend"]:
+                c["qstart"] = c["qend"]
+    elif mode < 0.9:
+        fam = "overflow"
+        i = rng.randrange(len(blocks))
+        b = list(blocks[i])
+        j = rng.randrange(len(b))
+        b[j] = min(U64, rng.choice([U64, U64 - 1, 2 ** 63, U64 - c["tend"], U64 - c["tend"] + 1, c["tsize"] + 1]))
+        blocks = blocks[:i] + [tuple(b)] + blocks[i + 1:]
+        c["blocks"] = blocks
+    else:
+        fam = "odd-kinds"  # terminating records in the middle, non-terminating at the end
+        blocks = [((b[0],) if rng.random() < 0.3 else b) for b in blocks[:-1]] + [rng.choice([blocks[-1], (blocks[-1][0], 0, 0)])]
+        c["blocks"] = blocks
+    return c, fam
+
+
+def expected_pairs(c):
+    """closed-form pairs of the records of c in API coordinates (unbounded integers)"""
+    out = []
+    t, q = c["tstart"], c["qstart"]
+    for b in c["blocks"]:
+        n = b[0]
+        rs, re_ = gen.api_pos(c["tstrand"], c["tsize"], t), gen.api_pos(c["tstrand"], c["tsize"], t + n)
+        qs, qe = gen.api_pos(c["qstrand"], c["qsize"], q), gen.api_pos(c["qstrand"], c["qsize"], q + n)
+        out.append((("r", c["tstrand"], rs, re_), ("q", c["qstrand"], qs, qe)))
+        t += n + (b[1] if len(b) == 3 else 0)
+        q += n + (b[2] if len(b) == 3 else 0)
+    return out, t, q
+
+
+def gen_C04(rng, tier):
+    n = 1200 if tier == "quick" else 25000
+    groups = []
+    for _ in range(n):
+        c, fam = gen_step_case(rng)
+        case = "step %s %s" % (xtok(gen.header_line(c).encode()), ",".join(rec_tok(b) for b in c["blocks"]))
+        groups.append(group(fam, "c04_step", [case], params={"chain": c}))
+    return groups
+
+
+@oracle("c04_step")
+def o_c04_step(params, cases, outs):
+    c = params["chain"]
+    c["blocks"] = [tuple(b) for b in c["blocks"]]
+    o = outs[0]
+    if o in ("badcase", "badrec"):
+        return "harness could not build the section: %s" % o
+    items = o.split(" ")
+    if items[-1] != "end":
+        return "the step-through did not end within the cap: ...%s" % o[-120:]
+    items = items[:-1]
+    n = len(c["blocks"])
+    if len(items) > n + 1:
+        return "more than records+1 items (%d > %d)" % (len(items), n + 1)
+    exp, t, q = expected_pairs(c)
+    adds_up = (t == c["tend"] and q == c["qend"])
+    errs = [i for i, it in enumerate(items) if it.startswith("E(")]
+    if errs and errs[0] != len(items) - 1:
+        return "items after an error: %s" % o[:300]
+    if adds_up != (not errs):
+        return "records %s to both extents but the run %s" % ("add up" if adds_up else "do not add up", "reported an error" if errs else "completed")
+    for k, it in enumerate(items):
+        if it.startswith("P("):
+            body = it[2:-1]
+            ptxt, rtxt = body.split(";")
+            if rtxt != rec_tok(c["blocks"][k]):
+                return "pair %d is accompanied by record %s, expected %s" % (k, rtxt, rec_tok(c["blocks"][k]))
+            got = parse_pair(ptxt)
+            if got != exp[k]:
+                return "pair %d is %s, the records and header dictate %s" % (k, got, exp[k])
+    if not errs and len(items) != n:
+        return "an error-free run must yield one pair per record"
+    return None
+
+
+# ------------------------------------------------------------------------------------------------
+# C05 / C07 (sections)
+# ------------------------------------------------------------------------------------------------
+
+def gen_line_seq(rng, maxlen=12):
+    """a sequence over {B,H,N,T,J,U} with texts; mostly grammatical"""
+    n = rng.randint(0, maxlen)
+    kinds = []
+    if rng.random() < 0.6:
+        # grammatical skeleton with a few mutations
+        while len(kinds) < n:
+            kinds += ["B"] * rng.choice([0, 0, 1, 2])
+            kinds.append("H")
+            kinds += ["N"] * rng.choice([0, 1, 2, 3])
+            kinds.append("T")
+        kinds = kinds[:n] if rng.random() < 0.4 else kinds
+        for _ in range(rng.choice([0, 0, 1, 1, 2])):
+            if kinds:
+                i = rng.randrange(len(kinds))
+                m = rng.random()
+                if m < 0.4:
+                    kinds[i] = rng.choice("BHNTJU")
+                elif m < 0.7:
+                    del kinds[i]
+                else:
+                    kinds.insert(i, rng.choice("BHNTJ"))
+    else:
+        kinds = [rng.choice("BHNTJ") for _ in range(n)]
+    texts = []
+    for k in kinds:
+        if k == "B":
+            texts.append(b"")
+        elif k == "H":
+            texts.append(gen_header_text(rng, corrupt=0))
+        elif k == "N":
+            texts.append(("%d\t%d\t%d" % (rng.randint(0, 30), rng.randint(0, 9), rng.randint(0, 9))).encode())
+        elif k == "T":
+            texts.append(("%d" % rng.randint(0, 30)).encode())
+        elif k == "J":
+            texts.append(rng.choice([b"junk", b"3\t4", b"chain 1 2", b"1\t2\t3\t4", b"-5", b"chainx", b" ", b"3\t\t4", b"x\ty\tz"]))
+        else:
+            texts.append(rng.choice([b"\xff\xfe", b"3\t\xc0\xaf\t1", b"\xed\xa0\x80", b"ok\xf5"]))
+    return kinds, texts
+
+
+def py_sections_spec(kinds, texts):
+    """the grammar: items up to and including the first error, as (tag, detail)"""
+    out = []
+    cur = None
+    for idx, (k, t) in enumerate(zip(kinds, texts)):
+        if k == "U":
+            out.append(("E", "utf8")); return out
+        if k == "J":
+            out.append(("E", "badline:" + ("h" if t.startswith(b"chain") else "d") + ":" + xtok(t))); return out
+        if k == "B":
+            if cur is not None:
+                out.append(("E", "blank:%d" % (idx + 1))); return out
+        elif k == "H":
+            if cur is not None:
+                out.append(("E", "hdrin")); return out
+            cur = [t]
+        else:
+            if cur is None:
+                out.append(("E", "databetween")); return out
+            cur.append(t)
+            if k == "T":
+                out.append(("S", cur)); cur = None
+    if cur is not None:
+        out.append(("E", "abrupt"))
+    return out
+
+
+def sections_case(rng, kinds, texts):
+    eol = b"\n"
+    data = eol.join(texts) + (eol if (texts and rng.random() < 0.7) else b"")
+    if texts and texts[-1] == b"" and not data.endswith(b"\n\n") and len(texts) > 0:
+        # a final blank line only exists if it is terminated
+        data = eol.join(texts) + eol
+    return "sections " + gen.src_tok(data), data
+
+
+def gen_C05(rng, tier):
+    n = 1500 if tier == "quick" else 30000
+    groups = []
+    for _ in range(n):
+        kinds, texts = gen_line_seq(rng)
+        case, data = sections_case(rng, kinds, texts)
+        has_err = any(t == "E" for t, _ in py_sections_spec(kinds, texts))
+        groups.append(group("with-error" if has_err else "error-free", "c05_sections", [case],
+                            params={"kinds": kinds, "texts": [t.hex() for t in texts]}, nontrivial=len(kinds) > 1))
+    if tier == "thorough":
+        # exhaustive small scope: all strings over {B,H,N,T,J} up to length 6
+        import itertools
+        fixed = {"B": b"", "H": b"chain 0 a 9 + 0 9 b 9 - 0 9 1", "N": b"3\t1\t2", "T": b"4", "J": b"junk"}
+        for L in range(0, 7):
+            for ks in itertools.product("BHNTJ", repeat=L):
+                texts = [fixed[k] for k in ks]
+                data = b"\n".join(texts) + (b"\n" if texts else b"")
+                groups.append(group("exhaustive<=6", "c05_sections", ["sections " + gen.src_tok(data)],
+                                    params={"kinds": list(ks), "texts": [t.hex() for t in texts]}, nontrivial=L > 1))
+    return groups
+
+
+def split_items(o):
+    """split a sections output into items; S(...) bodies contain no spaces"""
+    return o.split(" ")
+
+
+@oracle("c05_sections")
+def o_c05_sections(params, cases, outs):
+    kinds = params["kinds"]
+    texts = [bytes.fromhex(t) for t in params["texts"]]
+    o = outs[0]
+    if o == "panic":
+        return "the section iterator panicked"
+    items = split_items(o)
+    if items[-1] != "end":
+        return "the section iterator did not end (cap reached) on %d lines" % len(kinds)
+    items = items[:-1]
+    if len(items) > len(kinds) + 1:
+        return "more items (%d) than lines+1 (%d)" % (len(items), len(kinds) + 1)
+    exp = py_sections_spec(kinds, texts)
+    # prefix up to and including the first error
+    got = []
+    for it in items:
+        got.append(it)
+        if it.startswith("E("):
+            break
+    if len(got) != len(exp):
+        return "up to its first error the iterator yielded %d items, the grammar has %d: %s" % (len(got), len(exp), o[:300])
+    for g, (tag, d) in zip(got, exp):
+        if tag == "S":
+            if not g.startswith("S("):
+                return "expected a section, got %s" % g[:120]
+            nrec = len(g[2:-1].split(";")[1].split(","))
+            if nrec != len(d) - 1:
+                return "section with %d records, the input has %d" % (nrec, len(d) - 1)
+            recs = g[2:-1].split(";")[1].split(",")
+            if not recs[-1].endswith("/T") or any(r.endswith("/T") for r in recs[:-1]):
+                return "the last and only the last record must be terminating: %s" % g[:200]
+            for r, txt in zip(recs, d[1:]):
+                f = txt.split(b"\t")
+                want = "%d/%s/%s/%s" % (int(f[0]), f[1].decode() if len(f) == 3 else "-", f[2].decode() if len(f) == 3 else "-", "N" if len(f) == 3 else "T")
+                if r != want:
+                    return "record %s does not match input line %r" % (r, txt)
+        else:
+            if not g.startswith("E("):
+                return "expected error %s, got %s" % (d, g[:120])
+            kind = g[2:-1]
+            if d in ("hdrin", "databetween"):
+                if not kind.startswith(d + ":"):
+                    return "expected error kind %s, got %s" % (d, kind[:80])
+            elif kind != d:
+                return "expected error %s, got %s" % (d, kind[:120])
+    if not any(t == "E" for t, _ in exp) and len(items) != len(exp):
+        return "an error-free stream must yield exactly its sections and end"
+    return None
+
+
+def gen_C07(rng, tier):
+    groups = []
+    n = 700 if tier == "quick" else 12000
+    for _ in range(n):
+        kinds, texts = gen_line_seq(rng)
+        if rng.random() < 0.5 and kinds:
+            # make it end inside a section
+            kinds, texts = kinds + ["H", "N"], texts + [gen_header_text(rng, corrupt=0), b"3\t0\t1"]
+        case, data = sections_case(rng, kinds, texts)
+        groups.append(group("sections", "c07_sections", [case], params={"nlines": len(kinds)}, nontrivial=len(kinds) > 1))
+        groups.append(group("lines", "c07_lines", ["lines " + gen.src_tok(data)], params={"nlines": len(kinds)}, nontrivial=len(kinds) > 1))
+    for _ in range(n):
+        c, fam = gen_step_case(rng)
+        case = "step %s %s" % (xtok(gen.header_line(c).encode()), ",".join(rec_tok(b) for b in c["blocks"]))
+        groups.append(group("step-" + fam, "c07_step", [case], params={"nrec": len(c["blocks"])}))
+    return groups
+
+
+@oracle("c07_sections")
+def o_c07_sections(params, cases, outs):
+    o = outs[0]
+    if o == "panic":
+        return "the section iterator panicked"
+    items = o.split(" ")
+    if items[-1] != "end":
+        return "the section iterator did not end within %d calls on %d lines" % (len(items), params["nlines"])
+    if len(items) - 1 > params["nlines"] + 1:
+        return "%d items for %d lines" % (len(items) - 1, params["nlines"])
+    return None
+
+
+@oracle("c07_lines")
+def o_c07_lines(params, cases, outs):
+    items = outs[0].split(" ")
+    if items[-1] != "end":
+        return "lines() did not end"
+    if len(items) - 1 > params["nlines"] + 1:
+        return "%d line items for %d lines" % (len(items) - 1, params["nlines"])
+    return None
+
+
+@oracle("c07_step")
+def o_c07_step(params, cases, outs):
+    o = outs[0]
+    items = o.split(" ")
+    if items[-1] != "end":
+        return "the step-through did not end within the cap (%d records)" % params["nrec"]
+    items = items[:-1]
+    if len(items) > params["nrec"] + 1:
+        return "%d items for %d records" % (len(items), params["nrec"])
+    errs = [i for i, it in enumerate(items) if it.startswith("E(")]
+    if errs and errs[0] != len(items) - 1:
+        return "the step-through yielded items after an error: %s" % o[:300]
+    return None
+
+
+# ------------------------------------------------------------------------------------------------
 # registry
 # ------------------------------------------------------------------------------------------------
 
 PROPS = {
+    "C04": dict(props=["Props/C04.v"], profiles=["debug"], gen=gen_C04,
+                rule="sections built through the public section builder from a generated header (all four strand pairs; extents at "
+                     "u64::MAX, 2^63 in a quarter of the cases) and a record list: adding up (45%), off by +-k on either side or in a "
+                     "record (30%), one value that overflows / underflows (15%), terminating records in odd places (10%); zero sizes in "
+                     "30%. Both stepthrough() and stepthrough_with_data() are drained and must agree. All cases non-trivial; "
+                     "distinct = distinct case lines."),
+    "C05": dict(props=["Props/C05.v"], profiles=["debug"], gen=gen_C05,
+                rule="byte streams made of lines over {blank, valid header, non-terminating data, terminating data, junk, invalid UTF-8}: "
+                     "60% grammatical skeletons with 0-2 point mutations, 40% uniformly random strings, length 0..12+; sections() drained "
+                     "to exhaustion (cap 60 calls). The thorough tier adds every string over the five-letter alphabet up to length 6. "
+                     "Non-trivial = at least 2 lines; distinct = distinct case lines."),
+    "C07": dict(props=["Props/C07.v"], profiles=["debug"], gen=gen_C07,
+                rule="the C05 line streams (half of them extended to end inside a section) drained through sections() and lines(); the "
+                     "C04 sections (adding up, off by k, overflowing, odd kinds) drained through both step-throughs; every drain is capped at "
+                     "60 calls, far above lines+1 / records+1. Non-trivial = at least 2 lines / any section; distinct = distinct case lines."),
+    "C14": dict(props=["Props/C14.v"], profiles=["debug", "release"], gen=gen_C14,
+                rule="sequence constructor calls on (name,size,strand,start,end) strings drawn from valid numbers (incl. 0, u64::MAX, "
+                     "leading zeros, '+'), invalid spellings and values around start<=end<=size; every (size,dt,dq,kind) shape of the record "
+                     "constructor; header and data lines, valid and corrupted field-wise; run in debug and release. All generated cases count "
+                     "as non-trivial; distinct = distinct case lines."),
     "C15": dict(props=["Props/C15.v"], profiles=["debug"], gen=gen_C15,
                 rule="clamp/liftover/try_new calls on generated pairs: positions from {0..3, u64::MAX-3..u64::MAX} "
                      "(45%), 0..40 (40%), uniform u64 (15%); lengths 0,1,2,3,small,huge; all four strand pairs; clamp "
